@@ -44,7 +44,7 @@ ASSUMPTIONS = [
     '.run default CLOSE ON: named SELECT queries in all shapes; named BALANCES/JOURNAL/PRINT only without FROM or with an explicit CLOSE (where both readings of the property agree)',
     '.tables/.describe/.explain output text and warnings text are never compared',
 ]
-PROBES = ['bare_non_legacy_word', 'named_query_text_typed_after_run', 'render_after_setting_change', 'numberify_on_render', 'csv_render', 'boxed_unicode_render', 'empty_text_result',
+PROBES = ['several_lines_in_one_cmdloop', 'bare_non_legacy_word', 'named_query_text_typed_after_run', 'render_after_setting_change', 'numberify_on_render', 'csv_render', 'boxed_unicode_render', 'empty_text_result',
           'run_default_close_applied', 'run_explicit_close_kept', 'invalid_set_rejected', 'either_or_value', 'writer_fault_prefix',
           'second_session_isolated', 'cmdloop_error_path', 'dot_keyword_not_executed', 'legacy_bare_command', 'print_statement',
           'cli_output_file', 'cli_quiet_with_errors', 'cli_stdin_query', 'cli_init_file', 'nullvalue_rendered', 'expand_render']
@@ -193,6 +193,18 @@ def generate(rng, tier, run):
             r = rng.random()
             if r < 0.38:
                 ops.append(gen_set(rng))
+            elif r < 0.43 and ops[0]['mode'] == 'cmdloop':
+                # several lines read from standard input by ONE cmdloop call
+                lines = []
+                for _ in range(rng.randint(2, 4)):
+                    if rng.random() < 0.4:
+                        g = gen_set(rng)
+                        if g['op'] == 'set' and classify_set(g['name'], g['value'])[0] == 'valid':
+                            lines.append(g)
+                            continue
+                    i = rng.randrange(len(pool))
+                    lines.append({'op': 'stmt', 'stmt': i, 'text': recase(rng, pool[i])})
+                ops.append({'op': 'script', 'lines': lines})
             elif r < 0.68:
                 i = rng.randrange(len(pool))
                 op = {'op': 'stmt', 'stmt': i, 'text': recase(rng, pool[i]) + rng.choice(['', '', ';'])}
@@ -418,6 +430,8 @@ def execute(case, keep_log=False):
             sess[ci] = {'sh': sh, 'out': out, 'M': M, 'mode': op.get('mode', 'onecmd')}
             log.add('open', ci, op.get('format'), op.get('numberify'), op.get('mode'))
 
+        last_ret = [None]
+
         def feed(ci, line, writer_fault=None):
             """Feed one line through the real dispatcher.  Returns (outfile text, stderr text, exception class)."""
             s = sess[ci]
@@ -432,8 +446,9 @@ def execute(case, keep_log=False):
                     if s['mode'] == 'cmdloop':
                         sh.stdin = io.StringIO(line + '\n')
                         sh.cmdloop()
+                        last_ret[0] = None
                     else:
-                        sh.onecmd(line)
+                        last_ret[0] = sh.onecmd(line)
                 except core.HarnessError:
                     raise
                 except BaseException as e:
@@ -586,6 +601,26 @@ def execute(case, keep_log=False):
                         if M[op['name']] != cls[1] and op['name'] in RENDER_KEYS:
                             changed_since_render[ci] = True
                         s['M'] = applied
+            elif k == 'script':
+                # expected: what the lines print one after the other, under the settings in force at each line
+                Mx = dict(M)
+                pieces = []
+                for sub in op['lines']:
+                    if sub['op'] == 'set':
+                        Mx[sub['name']] = classify_set(sub['name'], sub['value'])[1]
+                    else:
+                        res, dctx = reference(('stmt', sub['stmt']), pool[sub['stmt']])
+                        pieces.append('' if res[0] == 'err' else render_expected(res, dctx, Mx))
+                text = '\n'.join(('.set ' + sub['name'] + ' ' + shlex.quote(sub['value'])) if sub['op'] == 'set' else sub['text']
+                                 for sub in op['lines'])
+                got, err, so, exc, _ = feed(ci, text)
+                log.add(where, k, text, got, bool(has_error(err)), core.exc_class(exc) if exc else None)
+                S.probes['several_lines_in_one_cmdloop'] += 1
+                if got != ''.join(pieces):
+                    violation('script-output', where, op, ''.join(pieces)[:600], got[:600])
+                s['M'] = Mx
+                if any(Mx[k_] != M[k_] for k_ in RENDER_KEYS):
+                    changed_since_render[ci] = True
             elif k == 'stmt':
                 if pool[op['stmt']] in ran_texts[ci]:
                     S.probes['named_query_text_typed_after_run'] += 1
@@ -644,6 +679,10 @@ def execute(case, keep_log=False):
                     violation('unknown-command-no-error', where, op, 'error message', err[:200])
             else:
                 raise core.HarnessError(k)
+            if last_ret[0]:
+                # cmd.Cmd stops its loop on a truthy return of onecmd: none of the generated lines asks to leave
+                violation('line-ends-session', where, op, 'falsy return (the session goes on)', repr(last_ret[0])[:80])
+            last_ret[0] = None
             if k in ('set_show_all', 'set_show', 'set_arity', 'set', 'legacy_set', 'tables', 'describe') and S.scans != scans0:
                 violation('command-executed-as-query', where, op, 'no table scan', 'table scanned')
             check_settings(ci, where, op)
@@ -852,6 +891,8 @@ def _line(case, op):
         return '.run ' + (case['world']['named'][op['q']]['name'] if op['q'] is not None else 'nosuchquery') + f' <{op["form"]}>'
     if k in ('unknown', 'dotkw', 'bareword'):
         return op['text']
+    if k == 'script':
+        return '<one cmdloop call> ' + ' | '.join(_line(case, sub) for sub in op['lines'])
     if k == 'set_show':
         return f'.set {op["name"]}'
     if k == 'set_show_all':
